@@ -364,9 +364,10 @@ func ruleC18Arity(c *Ctx) {
 // the paths where the switch value equals each constant label.
 func (c *Ctx) labelArms(f *ssa.Function) (map[string][]Effect, map[string]*Path) {
 	var labels []string
-	allInstrs(f, func(_ *ssa.BasicBlock, in ssa.Instruction) {
+	// (the dispatch may sit in a helper of f: `decoder, err := textDecoderOf(base)`)
+	deepInstrs(f, func(_ *ssa.Function, tb *TB, _ *ssa.BasicBlock, in ssa.Instruction) {
 		if b, ok := in.(*ssa.BinOp); ok && b.Op.String() == "==" {
-			if s, isC := constString(b.Y); isC && strings.Contains(NewTB().Of(b.X).String(), "strings.ToLower") {
+			if s, isC := constString(b.Y); isC && strings.Contains(tb.Of(b.X).String(), "strings.ToLower") {
 				labels = append(labels, s)
 			}
 		}
